@@ -177,3 +177,107 @@ def m_slice_first(tr, c):
         ix = tr.tmp("usize", "lastix")
         tr.emit(f"{ix} = ({ln} > 0 && {ln} <= {a.node.cap}) ? {ln} - 1 : 0;")
         tr.store(Loc(n.variants[si][1].fields[0], d.idxs), VRef(a.node.elem, a.idxs + [ix]))
+
+
+# ---- sub-slices, slice iterators, enumerate ------------------------------------------------------------------------------------
+@model(rx(r"<Vec as Index<(std::ops::|core::ops::)?RangeFrom(<usize>)?>>::index"), "<Vec as Index<RangeFrom>>::index",
+       rx(r"<\[[A-Za-z]+\] as Index<(std::ops::)?RangeFrom(<usize>)?>>::index"),
+       doc="&v[start..]: view of the same storage with an element offset; panics (asserted) when start > len")
+def m_vec_index_from(tr, c):
+    r = tr.as_ref(c.args[0])
+    a = _arr(tr, VRef(r.target, r.idxs))
+    rg = c.args[1]
+    if isinstance(rg, VAgg):
+        st = tr.as_scalar(rg.fields[0]).expr
+    else:
+        rl = rg.loc if isinstance(rg, VLoc) else tr.deref(rg)
+        st = tr.lv(Loc(rl.node.fields[0], rl.idxs))
+    o = tr.tmp("usize", "soff")
+    base = r.off if r.off is not None else "0"
+    tr.emit(f"{o} = ({base}) + ({st});")
+    tr.emit(f'__CPROVER_assert({o} <= {tr.lv(Loc(a.node.len, a.idxs))}, "RUST-PANIC slice start index out of range");')
+    c.ret(VRef(a.node, a.idxs, off=o))
+
+
+def t_sliceiter(tr, ty, name, dims, storage, g):
+    s_ = StructN(ty, name, dims, storage, "SliceIter")
+    s_.fields.append(RefN(None, name + "_vec", dims, storage)); s_.names.append("vec")
+    s_.fields.append(ScalarN(None, name + "_pos", dims, storage, "usize")); s_.names.append("pos")
+    return s_
+
+
+@model(rx(r"(core::slice::<impl )?\[[A-Za-z0-9_]+\]>?::iter"), "Vec::iter", doc="slice.iter(): elements in order from the view's offset")
+def m_slice_iter(tr, c):
+    r = tr.as_ref(c.args[0])
+    a = _arr(tr, VRef(r.target, r.idxs))
+    d = c.dest()
+    if not (d.node.kind == "struct" and d.node.tag == "SliceIter"):
+        raise TranslateError(f"slice iter into {d.node.name} (tag {getattr(d.node, 'tag', None)})")
+    tr.store(Loc(d.node.f("vec"), d.idxs), VRef(a.node, a.idxs))
+    tr.emit(f"{tr.lv(Loc(d.node.f('pos'), d.idxs))} = {r.off if r.off is not None else '0'};")
+
+
+def slice_iter_next(tr, it: Loc, dest: Loc):
+    a = tr.deref(VLoc(Loc(it.node.f("vec"), it.idxs)))
+    pos = tr.lv(Loc(it.node.f("pos"), it.idxs))
+    ln = tr.lv(Loc(a.node.len, a.idxs))
+    n = dest.node
+    si, ni = n.vindex("Some"), n.vindex("None")
+    pc = tr.tmp("usize", "sposc")
+    tr.emit(f"{pc} = ({pos} < {a.node.cap}) ? {pos} : 0;")
+    tr.emit(f'__CPROVER_assert({pos} >= {ln} || {pos} < {a.node.cap}, "BOUND slice iteration within model capacity");')
+    tr.emit(f"if ({pos} < {ln}) {{ {tr.lv(Loc(n.discr, dest.idxs))} = {si};")
+    tr.store(Loc(n.variants[si][1].fields[0], dest.idxs), VRef(a.node.elem, a.idxs + [pc]))
+    tr.emit(f"{pos} = {pos} + 1; }} else {{ {tr.lv(Loc(n.discr, dest.idxs))} = {ni}; }}")
+
+
+@model("Iter::next:SliceIter", doc="slice iterator next()")
+def m_slice_iter_next(tr, c):
+    slice_iter_next(tr, tr.deref(c.args[0]), c.dest())
+
+
+def t_enumerate(tr, ty, name, dims, storage, g):
+    s_ = StructN(ty, name, dims, storage, "Enumerate")
+    s_.fields.append(tr.alloc(ty.args[0], name + "_inner", dims, storage, g)); s_.names.append("inner")
+    s_.fields.append(ScalarN(None, name + "_count", dims, storage, "usize")); s_.names.append("count")
+    return s_
+
+
+@model(rx(r"<[A-Za-z]+ as Iterator>::enumerate"), rx(r"(core::iter::)?Iterator::enumerate"), doc="Iterator::enumerate: counter starting at 0")
+def m_enumerate(tr, c):
+    d = c.dest()
+    v = c.args[0]
+    tr.copy(Loc(d.node.f("inner"), d.idxs), v.loc if isinstance(v, VLoc) else tr.deref(v))
+    tr.emit(f"{tr.lv(Loc(d.node.f('count'), d.idxs))} = 0;")
+
+
+@model("<Enumerate as Iterator>::next", doc="(count, item) pairs; the count advances with every item")
+def m_enumerate_next(tr, c):
+    it = self_loc(tr, c.args[0])
+    inner = Loc(it.node.f("inner"), it.idxs)
+    if not (inner.node.kind == "struct" and inner.node.tag == "SliceIter"):
+        raise TranslateError(f"enumerate over {inner.node.name} (tag {getattr(inner.node, 'tag', None)}) is not modelled")
+    d = c.dest()
+    n = d.node
+    si, ni = n.vindex("Some"), n.vindex("None")
+    tup = n.variants[si][1].fields[0]
+    tr.tmpn += 1
+    tmp = tr.make_enum(None, f"enit{tr.tmpn}", [], tr.cur.storage, [("None", []), ("Some", [])])
+    tmp.variants[1][1].fields.append(RefN(None, f"enit{tr.tmpn}_Some_0", [], tr.cur.storage)); tmp.variants[1][1].names.append("0")
+    slice_iter_next(tr, inner, Loc(tmp, []))
+    cnt = tr.lv(Loc(it.node.f("count"), it.idxs))
+    tr.emit(f"if ({tr.lv(Loc(tmp.discr, []))} == 1) {{ {tr.lv(Loc(n.discr, d.idxs))} = {si}; {tr.lv(Loc(tup.fields[0], d.idxs))} = {cnt}; {cnt} = {cnt} + 1;")
+    tr.copy(Loc(tup.fields[1], d.idxs), Loc(tmp.variants[1][1].fields[0], []))
+    tr.emit(f"}} else {{ {tr.lv(Loc(n.discr, d.idxs))} = {ni}; }}")
+
+
+def install3(tr):
+    tm = tr.type_models
+    old_iter = tm.get("Iter")
+
+    def iter_dispatch(tr_, ty, name, dims, storage, g):
+        if "slice" in ty.full:
+            return t_sliceiter(tr_, ty, name, dims, storage, g)
+        return old_iter(tr_, ty, name, dims, storage, g)
+    tm["Iter"] = iter_dispatch
+    tm["Enumerate"] = t_enumerate
